@@ -13,7 +13,7 @@ warnings.filterwarnings("ignore")
 THEOREMS = ["Yaw.C14.toVec_unit", "Yaw.C14.angle_chord_inverse", "Yaw.C14.chord_angle_inverse",
             "Yaw.C14.chord_strictMono", "Yaw.C14.angle_strictMono", "Yaw.C14.ra_range", "Yaw.C14.fromVec_toVec",
             "Yaw.C14.fromVec_pole", "Yaw.C14.distance_eq_angle", "Yaw.C14.distance_symm",
-            "Yaw.C14.distance_triangle", "Yaw.C14.chord_le_two", "Yaw.C14.distance_clipped", "Yaw.C14.mean_pinned"]
+            "Yaw.C14.distance_triangle", "Yaw.C14.chord_le_two", "Yaw.C14.distance_clipped", "Yaw.C14.mean_pinned", "Yaw.C14.fromVec_scale", "Yaw.C14.mean_direction", "Yaw.C14.mean_single"]
 RULE = ("points on the whole sphere incl. exact poles, the RA wrap, colatitudes 1e-3..1e-15, separations 1e-16..pi incl. "
         "exact and near antipodes; compared with a 60-digit mpmath oracle under explicit bounds: to_3d 4 ulp(1) per "
         "component; from_3d(to_3d) declination 8 ulp / cos(dec), right ascension 16 ulp / (|sin ra| cos dec); "
